@@ -1,4 +1,4 @@
-"""C19: reflection. Specs: Reflection (symbol table of a descriptor set, computed in TLA+), Trace_Reflect."""
+"""C19: reflection. Specs: Reflection (symbol table of a descriptor set, computed in TLA+), ReflStream (one stream: worker + capacity-1 channel), Trace_Reflect."""
 import random, time
 from . import core, simple
 
@@ -19,12 +19,14 @@ def gen_msg(rnd, depth, i):
     return m
 
 
-def names_of(f):
+def names_of(f, siblings=True):
     """all names a file plausibly declares (only used to pick queries; the verdict is the specification's)"""
     out = []
     def j(p, n): return n if not p else p + '.' + n
     def en(p, e):
-        q = j(p, e['name']); out.append(q); out.extend(j(q, v['name']) for v in e['values']); out.extend(j(p, v['name']) for v in e['values'])
+        q = j(p, e['name']); out.append(q); out.extend(j(q, v['name']) for v in e['values'])
+        if siblings:
+            out.extend(j(p, v['name']) for v in e['values'])
     def msg(p, m):
         q = j(p, m['name']); out.append(q)
         out.extend(j(q, x['name']) for x in m['fields'] + m['oneofs'])
@@ -81,6 +83,31 @@ def gen(seed, tier):
     return out
 
 
+def session_stims(seed, tier, rows):
+    """Sessions exported from ReflStream.tla (client scripts over S/R/C/E with H/M query patterns) bound to concrete queries."""
+    rnd = random.Random(seed + 1919)
+    bases = [b for b in gen(seed + 7, 'quick') if any(names_of(f) for f in b['files'])][:12]
+    out = []
+    per = 12
+    rows = sorted(rows, key=lambda r: (len(r['qs']), r['qs'], r['script']))
+    rnd.shuffle(rows)
+    for k in range(0, len(rows), per):
+        base = dict(bases[(k // per) % len(bases)])
+        hits = [{'kind': 'symbol', 'arg': n, 'argb': list(n.encode())} for f in base['files'] for n in names_of(f, siblings=False)[:40]]
+        hits += [{'kind': 'file', 'arg': f['name'], 'argb': f['nb']} for f in base['files']] + [{'kind': 'list', 'arg': '', 'argb': []}]
+        misses = [{'kind': 'symbol', 'arg': q, 'argb': list(q.encode())} for q in ('nope', 'zz.Unknown', 'M0x')] + [{'kind': 'file', 'arg': 'unknown.proto', 'argb': list(b'unknown.proto')}]
+        sessions = []
+        for r in rows[k:k + per]:
+            qs = [dict(rnd.choice(hits if c == 'H' else misses), want=c) for c in r['qs']]
+            script = list(r['script'])
+            if rnd.random() < 0.3:      # let the worker run between client steps
+                script = [x for st in script for x in ((st, 'Y') if rnd.random() < 0.5 else (st,))]
+            sessions.append({'queries': qs, 'script': script, 'pattern': r['qs']})
+        base.update({'class': 'stream_session', 'queries': [], 'sessions': sessions})
+        out.append(base)
+    return out
+
+
 def check(prop, tier, seed):
     t0 = time.time()
     core.build_harness()
@@ -90,13 +117,27 @@ def check(prop, tier, seed):
     stims = gen(seed, tier)
     ev, path = simple.run_lab('reflect', stims, tag, 'descriptor_sets')
     simple.validate(prop, 'Trace_Reflect', verdict, ev, path, 'descriptor_sets', cov, clause_filter=lambda c: c.startswith('C19.') or c in ('NoPanic', 'NoHang'))
+    # ---- the stream dimension: ReflStream.tla (worker + capacity-1 channel), model checked, must-violate deviation, scripts replayed
+    mc = []
+    r = core.tlc_mc('MC_ReflStream', 'MC_ReflStream.cfg', workers=4, timeout=600)
+    if r.get('violated') or [a for a in r.get('never_taken', []) if a != 'WorkerGiveUp']:
+        raise core.ToolError(f'ReflStream: {r.get("violated")} {r.get("never_taken")}\n' + r.get('output_tail', '')[-2500:])
+    mc.append(r)
+    mc.append(core.tlc_mc('MC_ReflStream', 'MC_ReflStream_trysend.cfg', workers=4, timeout=600, expect_violation='Contract', check_actions=False))
+    rows, st = core.tlc_export('Gen_ReflStream', 'Gen_ReflStream_big.cfg' if tier == 'thorough' else 'Gen_ReflStream.cfg', workers=1, timeout=600)
+    mc.append(st)
+    sst = session_stims(seed, tier, rows)
+    ev2, path2 = simple.run_lab('reflect', sst, tag + '_sess', 'stream_sessions')
+    simple.validate(prop, 'Trace_Reflect', verdict, ev2, path2, 'stream_sessions', cov, clause_filter=lambda c: c.startswith('C19.') or c in ('NoPanic', 'NoHang'))
+    cov['stream_sessions'] = sum(len(x['sessions']) for x in sst)
+    cov['samples'].append({'family': 'stream_sessions', 'stimulus': simple.sample_of(sst)})
     cov['queries'] = sum(len(s['queries']) for s in stims)
     cov['samples'].append({'family': 'descriptor_sets', 'stimulus': simple.sample_of(stims)})
-    return simple.finish(prop, tier, seed, verdict, cov, [], t0,
+    return simple.finish(prop, tier, seed, verdict, cov, mc, t0,
                          ['the enum-value spelling in the enclosing scope (pkg.V instead of pkg.E.V) is excluded from the negative set: protobuf scoping would declare it, the statement does not choose',
                           'names in tonic\'s own grpc.reflection namespace are not constrained',
                           '"decodes to what was registered" is prost equality of the decoded FileDescriptorProto with the registered one (projection)'],
-                         'vh reflect; tlc Trace_Reflect.cfg')
+                         'tlc MC_ReflStream.cfg + MC_ReflStream_trysend.cfg (must violate) + Gen_ReflStream.cfg (scripts); vh reflect; tlc Trace_Reflect.cfg')
 
 
 def replay(prop, path):
